@@ -64,6 +64,11 @@ class Disk:
             self.clock_ns += 1_000_000_000
             self.mtime_ns[path] = self.clock_ns
 
+    def remove_text(self, path):
+        """delete a grammar source file"""
+        self.texts.pop(path, None)
+        self.mtime_ns.pop(path, None)
+
     def stat_text(self, path):
         import stat as _stat
         t = self.texts[path]
